@@ -52,7 +52,7 @@ class C06(OptEngineBase):
     PROBES = [
         "fixed_isolated", "all_fixed", "none_fixed", "fixed_landmark", "unfix_between_calls",
         "first_vertex_not_min_id", "nan_outcome", "diverged_outcome", "singular_natural", "solver_raise_fired",
-        "i3_checked", "i3_skipped_illcond", "stdout_fail_fired", "multi_component", "singular_raised_as_error", "i3_trajectory_step", "aliased_pose_objects", "fixed_satellite_pose", "fixed_vertex_moved_by_user_between_calls",
+        "i3_checked", "i3_skipped_illcond", "stdout_fail_fired", "multi_component", "singular_raised_as_error", "i3_trajectory_step", "aliased_pose_objects", "fixed_satellite_pose", "fixed_vertex_moved_by_user_between_calls", "graph_pickled_or_deepcopied_between_calls", "multi_iteration_end_state_checked",
     ]
 
     # ------------------------------------------------------------------ generate
@@ -94,9 +94,13 @@ class C06(OptEngineBase):
             r = rng.random()
             if k == n_ops - 1 and not any(o["op"] == "optimize" for o in ops):
                 r = 1.0
-            if r < 0.07:
+            if r < 0.10:
                 # the user re-positions a vertex between calls (fixed or free): v.pose = v.pose [+] delta
-                ops.append({"op": "move_vertex", "v": rng.choice(ids), "delta": [rng.gauss(0, 0.5) for _ in range(6)]})
+                target = rng.choice(sorted(fixed)) if fixed and rng.random() < 0.6 else rng.choice(ids)  # often a fixed one
+                ops.append({"op": "move_vertex", "v": target, "delta": [rng.gauss(0, 0.5) for _ in range(6)], "inplace": rng.random() < 0.5})
+            elif r < 0.13:
+                # the graph goes through pickle / deepcopy between calls (checkpoint, multiprocessing)
+                ops.append({"op": "recreate", "how": rng.choice(["pickle", "deepcopy"])})
             elif r < 0.25:
                 ops.append({"op": "set_fixed", "v": rng.choice(ids), "value": rng.random() < 0.6})
             elif r < 0.35:
@@ -113,6 +117,8 @@ class C06(OptEngineBase):
                 })
                 if not single and rng.random() < 0.35:
                     ops[-1]["shadow"] = True
+                if rng.random() < 0.15:
+                    ops[-1]["call_style"] = "positional"  # optimize(tol, max_iter, fix_first_pose, verbose), the documented order
                 if rng.random() < 0.08:
                     ops[-1].update({"use_defaults": True, "tol": 1e-4, "max_iter": 20, "fix_first_pose": True, "verbose": True})
         case = {"config": config, "workload": workload, "meta": meta, "ops": ops, "faults": []}
@@ -163,6 +169,24 @@ class C06(OptEngineBase):
                         model.discard(v.id)
                     sig_ops.append("set_fixed")
                     log.note("set_fixed", [v.id, bool(op["value"])])
+                elif kind == "recreate":
+                    import pickle
+
+                    g = pickle.loads(pickle.dumps(g)) if op["how"] == "pickle" else copy.deepcopy(g)
+                    verts = g._vertices
+                    by_id = {v.id: v for v in verts}
+                    if not dry:
+                        res.probe("graph_pickled_or_deepcopied_between_calls")
+                        # the copy carries the same visible state, fixed flags included
+                        for v in verts:
+                            res.n_checks += 1
+                            if bool(v.fixed) != (v.id in model):
+                                res.violate("C06:fixed-flag", "after a %s round trip vertex id %d has fixed=%r, the fixed-set model says %r" % (op["how"], v.id, v.fixed, v.id in model))
+                                break
+                        if res.violations:
+                            break
+                    sig_ops.append("recreate:" + op["how"])
+                    log.note("recreate", op["how"])
                 elif kind == "move_vertex":
                     v = by_id.get(op["v"])
                     if v is None:
@@ -171,7 +195,10 @@ class C06(OptEngineBase):
                     d = np.array(op["delta"][: v.pose.COMPACT_DIMENSIONALITY], dtype=np.float64)
                     if v.pose.COMPACT_DIMENSIONALITY == 6:
                         d[3:] *= 0.3
-                    v.pose = v.pose + d
+                    if op.get("inplace"):
+                        v.pose[:] = v.pose + d  # same object, new numbers
+                    else:
+                        v.pose = v.pose + d
                     if not dry and v.id in model and optimized_before:
                         res.probe("fixed_vertex_moved_by_user_between_calls")
                     sig_ops.append("move_vertex")
@@ -191,7 +218,9 @@ class C06(OptEngineBase):
                     ref = None
                     if not dry and op["max_iter"] == 1 and all_finite(before):
                         try:
-                            ref = reference_reduced_step(g, model)
+                            # assembled on a brand-new clone of the visible state, so that nothing the graph's own edge /
+                            # vertex objects may have remembered from earlier calls can leak into the reference
+                            ref = reference_reduced_step(graphs.clone(g), model)
                         except Exception as e:  # reference could not be formed (e.g. user edge on degenerate input)
                             ref = {"ok": False, "why": "reference-raised:" + type(e).__name__}
                     shadow = None
@@ -202,6 +231,8 @@ class C06(OptEngineBase):
                     try:
                         if op.get("use_defaults"):
                             result = g.optimize()
+                        elif op.get("call_style") == "positional":
+                            result = g.optimize(op["tol"], op["max_iter"], op["fix_first_pose"], op["verbose"])
                         else:
                             result = g.optimize(tol=op["tol"], max_iter=op["max_iter"], fix_first_pose=op["fix_first_pose"],
                                                 verbose=op["verbose"])
@@ -318,7 +349,8 @@ class C06(OptEngineBase):
                     # I3 along the trajectory: a shadow clone is advanced one update at a time in a benign
                     # environment and every one of its steps is compared with the independent reduced step
                     if shadow is not None and raised is None and not fired_kinds and not res.violations:
-                        n_steps = min(int(result.num_iterations or 0), 6)
+                        n_total = int(result.num_iterations or 0)
+                        n_steps = min(n_total, 8)
                         s_types = [graphs.type_name(v.pose) for v in shadow._vertices]
                         for j in range(n_steps):
                             sref = None
@@ -360,6 +392,24 @@ class C06(OptEngineBase):
                                     break
                             if bad:
                                 break
+                        else:
+                            # every update of the shadow matched the reduced step; if it made as many updates as the
+                            # call itself, the call must have ended where the shadow ended (an n-iteration call that
+                            # breaks down in iteration >= 2 -- e.g. NaN on a well-posed problem -- shows up here)
+                            if n_steps == n_total and n_total > 0 and not res.violations:
+                                s_end = poses_snapshot(shadow)
+                                if all_finite(s_end):
+                                    res.probe("multi_iteration_end_state_checked")
+                                    for k in range(len(verts)):
+                                        res.n_checks += 1
+                                        ok, worst = graphs.pose_arrays_close(types[k], s_end[k], after[k], 1e-9, abs_floor=1e-12)
+                                        if not ok:
+                                            cls = "nan" if not np.all(np.isfinite(after[k])) else "differs"
+                                            res.violate("C06:reduced-step:multi-iteration-" + cls,
+                                                        "vertex id %d (%s): optimize(max_iter=%d) performed %d updates and ended at %s; %d single "
+                                                        "reduced Gauss-Newton steps from the same state end at %s"
+                                                        % (verts[k].id, types[k], op["max_iter"], n_total, after[k].tolist(), n_total, s_end[k].tolist()))
+                                            break
                 else:  # pragma: no cover
                     raise ValueError("unknown op %r" % kind)
             if dry:
